@@ -50,6 +50,9 @@ class ComposedNode(ConfigNode):
             child = self._children[old_name]
             del self._children[old_name]
             self._children[new_name] = child
+            if isinstance(self, dict):
+                dict.__delitem__(self, old_name)
+                dict.__setitem__(self, new_name, child)
             return child
 
         def get_child(self, name, default=None):
@@ -274,6 +277,10 @@ class ComposedNode(ConfigNode):
 
         def clear(self):
             self._children.clear()
+            if isinstance(self, dict):
+                dict.clear(self)
+            elif isinstance(self, list):
+                list.clear(self)
 
         def on_preprocess_impl(self, path, builder):
             return self.ayns.map_nodes(lambda child_path, node: node.ayns.on_preprocess(child_path, builder), prefix=path, cache_results=True, leafs_only=False, include_self=False, recurse=False)
